@@ -33,6 +33,7 @@ def catalogue(ctx: Any) -> Dict[str, Svc]:
         'S3': Svc('S3', T2, 'Gamma._ipp._tcp.local.', 'gamma.local.', 631, [V4B], [V6B]),
         'S4': Svc('S4', '_printer._sub._ipp._tcp.local.', 'Delta._ipp._tcp.local.', 'delta.local.', 631, [], [V6A]),
         'S5': Svc('S5', '_HTTP._tcp.local.', 'Epsilon._HTTP._tcp.local.', 'EPSILON.local.', 80, [V4A, V4B], [V6A]),
+        'S6': Svc('S6', T2, 'Zeta Printer._ipp._tcp.local.', None, 631, [V4A], []),  # no server given: the instance name is the host name
     }
     return cat, ttl  # type: ignore[return-value]
 
@@ -163,6 +164,8 @@ SCRIPTS = {
     'inplace-update': _s('reg:S1', 'touch:S1', 'inplace:S1p'),
     'inplace-readd': _s('reg:S1', 'touch:S1', 'inplace-readd:S1p'),
     'three': _s('reg:S1', 'reg:S2', 'reg:S3'),
+    'default-server': _s('reg:S6'),
+    'default-server-removed': _s('reg:S3', 'reg:S6', 'unreg:S6'),
 }
 QUESTIONS = {
     'ptr1': [(T1, PTR)], 'ptr1-up': [('_HTTP._TCP.local.', PTR)], 'ptr2': [(T2, PTR)], 'enum': [(ENUM, PTR)], 'enum-up': [(ENUM.upper().replace('LOCAL', 'local'), PTR)],
@@ -175,6 +178,7 @@ QUESTIONS = {
     'ptr+srv': [(T1, PTR), ('Alpha._http._tcp.local.', SRV)], 'a+aaaa': [('alpha.local.', A), ('alpha.local.', AAAA)],
     'ptr1+ptr2': [(T1, PTR), (T2, PTR)], 'srv+txt': [('Alpha._http._tcp.local.', SRV), ('Alpha._http._tcp.local.', TXT)],
     'srv-eps': [('epsilon._http._tcp.local.', SRV)], 'ptr-gamma-srv': [(T2, PTR), ('Gamma._ipp._tcp.local.', SRV)],
+    'a-zeta': [('Zeta Printer._ipp._tcp.local.', A)], 'aaaa-zeta-low': [('zeta printer._ipp._tcp.local.', AAAA)], 'srv-zeta': [('Zeta Printer._ipp._tcp.local.', SRV)],
 }
 QUICK = [
     ('one', 'ptr1', []), ('one', 'ptr1', [('S1', 'PTR')]), ('one', 'a', [('S1', 'A')]), ('one', 'aaaa', []), ('one', 'srv', [('S1', 'SRV')]),
@@ -185,6 +189,7 @@ QUICK = [
     ('subtype', 'sub', []), ('subtype', 'ptr2', []), ('upper', 'ptr1', []), ('upper', 'a-eps', [('S5', 'A')]), ('upper', 'srv-eps', []),
     ('empty', 'ptr1', []), ('empty', 'enum', []), ('one', 'ptr1-up', []), ('one', 'a-up', []), ('one', 'ptr+srv', [('S1', 'SRV')]),
     ('one', 'a+aaaa', []), ('inplace-update', 'ptr1', []), ('inplace-update', 'srv', []), ('inplace-update', 'a', []), ('inplace-readd', 'ptr1', []), ('three', 'ptr1+ptr2', [('S3', 'PTR')]), ('one', 'unreg-name', []),
+    ('default-server', 'a-zeta', []), ('default-server', 'aaaa-zeta-low', []), ('default-server', 'srv-zeta', []), ('default-server', 'ptr2', []), ('default-server-removed', 'a-zeta', []),
 ]
 
 
@@ -212,7 +217,7 @@ def obligations(tier: str) -> List[Obligation]:
 
 META = {
     'explanation': 'Real ServiceRegistry/ServiceInfo/QueryHandler.async_response on registries reached by concrete register/update/'
-    'unregister scripts over a 7-service catalogue (shared hosts, v4-only/v6-only/dual, subtype, upper-case spellings); host_ttl and '
+    'unregister scripts over an 8-service catalogue (shared hosts, v4-only/v6-only/dual, subtype, upper-case spellings, host name defaulted from a mixed-case instance name); host_ttl and '
     'other_ttl of every service (1..2^31-1) and every known-answer TTL (0..2^32-1) are z3 integers. Answers, per-answer additionals, '
     'TTLs, flush marking and the built reply are compared with a declarative reference responder.',
     'functions': [
